@@ -219,6 +219,7 @@ func (c *Ctx) Fingerprint(fd *ast.FuncDecl) string {
 // a kind, and then optionally a part of it:
 //
 //	if[k]            .cond .body .else
+//	comm[chan][k]    .body            (select arm on channel expression `chan`, position-independent)
 //	for[k]           .cond .body .init .post
 //	range[k]         .body .x
 //	select[k]        (Select sites) ; commclause: case[k] .body
@@ -257,6 +258,7 @@ func parseSel(sel string) ([]seg, error) {
 			rest = rest[i:]
 		}
 		needKey := map[string]bool{"assign": true, "incdec": true, "call": true, "index": true}[s.kind]
+		needKey = needKey || s.kind == "comm" // comm[<channel expr>]: the select arm on that channel, wherever it stands
 		readBr := func() (string, bool) {
 			if !strings.HasPrefix(rest, "[") {
 				return "", false
@@ -328,7 +330,9 @@ func (c *Ctx) matchSeg(n ast.Node, s seg) bool {
 		return s.kind == "select"
 	case *ast.SwitchStmt, *ast.TypeSwitchStmt:
 		return s.kind == "switch"
-	case *ast.CommClause, *ast.CaseClause:
+	case *ast.CommClause:
+		return s.kind == "case" || (s.kind == "comm" && c.commChan(x) == s.key)
+	case *ast.CaseClause:
 		return s.kind == "case"
 	case *ast.AssignStmt:
 		if s.kind != "assign" {
@@ -359,6 +363,25 @@ func (c *Ctx) matchSeg(n ast.Node, s seg) bool {
 		return s.kind == "defer"
 	}
 	return false
+}
+
+// commChan returns the channel expression (spaces removed) of a select arm, "" for default.
+func (c *Ctx) commChan(cc *ast.CommClause) string {
+	switch x := cc.Comm.(type) {
+	case *ast.SendStmt:
+		return c.Text(x.Chan)
+	case *ast.ExprStmt:
+		if u, ok := x.X.(*ast.UnaryExpr); ok && u.Op == token.ARROW {
+			return c.Text(u.X)
+		}
+	case *ast.AssignStmt:
+		if len(x.Rhs) == 1 {
+			if u, ok := x.Rhs[0].(*ast.UnaryExpr); ok && u.Op == token.ARROW {
+				return c.Text(u.X)
+			}
+		}
+	}
+	return ""
 }
 
 func (c *Ctx) part(n ast.Node, s seg) (ast.Node, error) {
